@@ -1557,9 +1557,18 @@ package apd
 //@   assigns d
 //@   ensures [invkeep] old(inv(d)) ==> inv(d)
 //@   ensures [closed] closed(ret0)
+//@   ensures [trap] trapped(c, ret0) ==> ret1 != nil
+//@   ensures [edclean] ret1 == nil ==> edclean(ed)
 //@   ensures [nan] NaN2(x, y, d, ret0)
 //@   ensures [zerozero] old(!isnan(x) && !isnan(y) && iszero(x) && iszero(y)) ==> (d.Form == NaN && ret0 == InvalidOperation)
 //@   ensures [yzero] old(!isnan(x) && !isnan(y) && x.Form == Finite && !iszero(x) && iszero(y)) ==> (d.Form == Finite && val(d.Coeff) == 1 && d.Exponent == 0 && ret0 == 0)
+//@   ensures [xinf_yzero] old(!isnan(x) && !isnan(y) && x.Form == Infinite && iszero(y)) ==> (d.Form == Finite && val(d.Coeff) == 1 && d.Exponent == 0 && ret0 == 0)
+//@   ensures [xneginf_invalid] old(!isnan(x) && !isnan(y) && x.Form == Infinite && x.Negative && !iszero(y) && (y.Form == Infinite || !isinteger(y))) ==> (d.Form == NaN && ret0 == InvalidOperation)
+//@   ensures [xinf_yneg] old(!isnan(x) && !isnan(y) && x.Form == Infinite && !iszero(y) && y.Negative && !(x.Negative && (y.Form == Infinite || !isinteger(y)))) ==> (d.Form == Finite && val(d.Coeff) == 0 && ret0 == 0)
+//@   ensures [xinf_ypos] old(!isnan(x) && !isnan(y) && x.Form == Infinite && !iszero(y) && !y.Negative && !(x.Negative && (y.Form == Infinite || !isinteger(y)))) ==> (d.Form == Infinite && ret0 == 0)
+//@   ensures [xzero_ypos] old(!isnan(x) && !isnan(y) && iszero(x) && !iszero(y) && !y.Negative) ==> (d.Form == Finite && val(d.Coeff) == 0 && ret0 == 0)
+//@   ensures [xzero_yneg] old(!isnan(x) && !isnan(y) && iszero(x) && !iszero(y) && y.Negative) ==> (d.Form == Infinite && ret0 == 0)
+//@   ensures [xneg_nonint] old(!isnan(x) && !isnan(y) && x.Form == Finite && !iszero(x) && x.Negative && y.Form == Finite && !iszero(y) && !isinteger(y)) ==> (d.Form == NaN && ret0 == InvalidOperation)
 
 //@ define RCoef(c: *Context, neg: bool, C: int, E: int): int = ite(C == 0, 0, ite(E + nd10(C) - 1 < c.MinExponent, RND(c.Rounding, neg, C, SSH(c, E)), NCOEF(c, neg, C)))
 //@ define RExp(c: *Context, neg: bool, C: int, E: int): int = ite(C == 0, ite(E < etiny(c), etiny(c), ite(E > c.MaxExponent, c.MaxExponent, E)), ite(E + nd10(C) - 1 < c.MinExponent, max(E, etiny(c)), NEXP(c, neg, C, E)))
